@@ -43,6 +43,18 @@ def cases(tier, seed):
         for blk in ("wide", "deep"):
             for p, U in block(K, blk, tier):
                 yield (K, p, tuple(U), blk, tier)
+    for p, U in high_vectors():
+        yield ("K0", p, tuple(U), "high", tier)
+
+
+def high_vectors():
+    a, b, cands = al.ALPHABETS["K0"]
+    out = []
+    for p in (4, 5):
+        out.append((p, [a] * (p + 1) + [b] * (p + 1)))
+        out.append((p, [a] * (p + 1) + [cands[1]] + [b] * (p + 1)))
+    out.append((4, [a] * 5 + [cands[0], cands[2], cands[2]] + [b] * 5))
+    return out
 
 
 def describe(case):
@@ -68,7 +80,11 @@ def run_case(case, res):
     K, p, U, blk, tier = case
     U = list(U)
     n = len(U) - p - 1
-    targets = block(K, blk, tier)
+    if blk == "high":
+        # degree 4 and 5 sources against high-degree targets and a few low-degree ones
+        targets = high_vectors() + [(q, list(V)) for q, V in al.knotvectors("K0", 3, 1) if len(V) in (2, 5, 8)]
+    else:
+        targets = block(K, blk, tier)
     if blk == "deep" and len(set(U)) - 2 < 2:
         targets = [(q, V) for q, V in targets if len(set(V)) - 2 == 2]  # the other pairs belong to the wide block
     gen = al.generic_points(n)
